@@ -7,6 +7,7 @@
 #   python_semantic          decisive layer for data_msg.py: gen_msg / parse_msg evaluated by rules/c16.Mach
 #   trxcon_rx/tx_structural  structural rules for trx_if.c (recorded as structural proofs)
 #   _group                   decision: semantic layer decides, structural proof recorded; fallback if not evaluable
+#   r5_carriage              C04.R5: member value ranges vs the quantities' domains; scheduler -> PHYIF -> trx_if.c hand-over evaluated
 
 import ast
 import json
@@ -36,7 +37,12 @@ EXPLANATION = (
     "soft-bit tables folded, trxcon's field <- octet expressions, guards, soft-bit loop body folded over all 256 "
     "octets (incl. constant look-up tables), FN guard and transmit stores read from the clang AST; they hold for "
     "all inputs when closed and never raise an alarm by themselves (an unfamiliar but correct shape leaves them "
-    "open). If the code cannot be evaluated, a closed structural proof decides; otherwise there is no verdict.")
+    "open). If the code cannot be evaluated, a closed structural proof decides; otherwise there is no verdict. "
+    "A fourth group (C04.R5) decides that a burst's values are carried unchanged between the scheduler, the PHYIF "
+    "structures and trx_if.c: the domain of every quantity (frame number, timeslot, attenuation, burst length, RSSI, "
+    "ToA256, hard / soft bits) is included in the value range of each integer member that carries it (resolved member "
+    "types of the clang AST), and trxcon_shim.c's scheduler -> PHYIF conversion and trxcon_main.c's hand-over to "
+    "trx_if.c are evaluated on request families with the integer conversions clang resolved at each store.")
 ASSUMPTIONS = [
     "osmo_load32be/16be(p), osmo_store32be/16be(v, p): big-endian load/store at p; memcpy/memmove/memset as in ISO C; read/recv/recvfrom deliver min(datagram length, capacity) octets; send/sendto/write emit the given octets",
     "external functions without a body in trx_if.c (logging, strerror_r, the rts indication) do not modify the local buffer or the burst indication",
@@ -184,7 +190,7 @@ def r1_python_vs_spec(L, repo, spec):
 
 
 from cfront import (TU, CCFG, kids, kind, strip, walk, ctext, calls_to, call_args, CLower, fold_env,
-                    array_extent, wrap_int)
+                    array_extent, wrap_int, KINDS)
 
 
 # ---------------------------------------------------------------------------------------------
@@ -2044,6 +2050,255 @@ def r4_python_recv(L, repo, spec):
          ">= %d" % largest_tx, sizes, all(x >= largest_tx for x in sizes))
 
 
+# ---------------------------------------------------------------------------------------------
+# C04.R5: the values of a burst are carried unchanged between the scheduler, the PHYIF structures
+# and trx_if.c (resolved member types + the conversions at the stores, evaluated)
+# ---------------------------------------------------------------------------------------------
+def _rssi_octets(repo):
+    """(lowest, highest) RSSI octet of a valid toolkit message (= -RSSI_MAX, -RSSI_MIN of RxMsg)"""
+    rmin, rmax = 47, 120
+    try:
+        rci = repo.need_class("data_msg", "RxMsg")
+        ev = Ev(repo, repo.mod("data_msg"), self_cls=rci)
+        a_, b_ = ev.ev(repo.find_attr(rci, "RSSI_MAX")[1]), ev.ev(repo.find_attr(rci, "RSSI_MIN")[1])
+        if isinstance(a_, int) and isinstance(b_, int) and 0 <= -a_ <= -b_ <= 255:
+            rmin, rmax = -a_, -b_
+    except Exception:
+        pass
+    return rmin, rmax
+
+
+def _field_decls(tu, rec):
+    r = tu.records.get(rec)
+    if r is None:
+        raise AnalysisError("struct %s not found" % rec)
+    return {c.get("name"): c for c in kids(r) if kind(c) == "FieldDecl"}
+
+
+def _int_range(tu, fd, element=False):
+    """(lo, hi, description) of the values an integer member can hold, from its RESOLVED type (typedefs desugared by
+    clang, bit-field width folded); `element`: of the objects a pointer / array member refers to.  None if the
+    member is not of a plain integer type."""
+    t = fd.get("type") or {}
+    shown = t.get("qualType") or ""
+    qt = _qt(fd)
+    if element:
+        qt = _pointee(qt)
+        if qt is None:
+            return None
+    q = _clean(qt)
+    for _ in range(8):                       # element type of a pointer / array: follow the typedef chain
+        td = tu.typedefs.get(q)
+        if td is None:
+            break
+        q = _clean(_qt(td))
+    if q == "_Bool":
+        bits, signed = 1, False
+    else:
+        m = _ITYPES.get(q)
+        if m is None:
+            return None
+        bits, signed = m
+    if fd.get("isBitfield") and not element:
+        wd = tu.fold(kids(fd)[0]) if kids(fd) else None
+        if not isinstance(wd, int) or not 0 < wd <= bits:
+            return None
+        bits = wd
+        shown = "%s:%d" % (shown, wd)
+    lo, hi = (-(1 << (bits - 1)), (1 << (bits - 1)) - 1) if signed else (0, (1 << bits) - 1)
+    return lo, hi, "%s: %d..%d" % (shown, lo, hi)
+
+
+def _decl_file(tu, L, fd):
+    """repository-relative path of the file a declaration was read from (the header), registered as a unit"""
+    p = fd.get("_file")
+    if not p:
+        return tu.rel
+    a = p if os.path.isabs(p) else os.path.join(L.repo, KINDS[tu.kind]["cwd"], p)
+    r = os.path.relpath(os.path.realpath(a), os.path.realpath(L.repo))
+    if r.startswith(".."):
+        return tu.rel
+    try:
+        L.unit(r)
+    except AnalysisError:
+        return tu.rel
+    return r
+
+
+def r5_carriage(L, repo, spec, tier):
+    """C04.R5 -- decides a necessary condition of the clauses `every burst trxcon emits is parsed by the toolkit to the
+    values trxcon was given` (request direction: scheduler -> struct trxcon_phyif_burst_req -> trx_if.c, whose octets
+    C04.R3 decides from the values held by that structure) and `every version-0 burst ... is decoded by trxcon to the same
+    frame, timeslot, RSSI, ToA and soft bits` (indication structure filled by trx_if.c):
+      (a) every integer member on the path can hold every value of the quantity's domain (frame numbers below the
+          hyperframe, timeslots of the 3-bit field, all attenuation octets, burst lengths 0..444, valid RSSI, 16-bit ToA256,
+          hard bits 0/1, soft bits -127..127): interval inclusion, decided from the member's resolved type in the clang AST
+          (typedefs desugared, bit-field widths folded) - never from its spelling or position in the structure;
+      (b) the conversion scheduler request -> PHYIF request (l1sched_handle_burst_req in trxcon_shim.c) and the hand-over
+          to trx_if.c (trxcon_phyif_handle_burst_req in trxcon_main.c) are evaluated by the closure compiler with the C
+          integer conversions clang resolved at each store: every request that is handed on carries exactly the values
+          it was given (a request that is not handed on emits nothing and is outside this property)."""
+    R = "C04.R5"
+    tu = TU(L.repo, "trxcon", "src/trxcon_shim.c", L=L)
+    spt, spr = spec["Tx"]["0"], spec["Rx"]["0"]
+    bits0 = {nm: (sh, w) for nm, sh, w in bits_layout(spec["hdr_common"][0]["fields"], 1) if nm}
+    kinds_ = {fd.get("name"): fd.get("kind") for fd in spec["hdr_common"] + spt["fields"] + spr["fields"] if fd.get("name")}
+    if kinds_.get("fn") != "be_u32" or kinds_.get("pwr") != "u8" or kinds_.get("toa256") != "be_i16" or kinds_.get("rssi") != "u8":
+        raise AnalysisError("spec/trxd.json: unexpected field kinds %s" % kinds_)
+    H = H_FRAMES
+    rmin, rmax = _rssi_octets(repo)
+    tlens, rlens = spt["burst"]["lengths"], spr["burst"]["lengths"]
+    dom_req = {"fn": (0, H - 1, "frame numbers of the hyperframe"), "tn": (0, (1 << bits0["tn"][1]) - 1, "timeslots of the layout's %d-bit field" % bits0["tn"][1]),
+               "pwr": (0, 255, "attenuation octets"), "burst_len": (0, max(tlens), "burst lengths of the layout (idle PDU, %s)" % ", ".join(map(str, tlens)))}
+    dom_ind = {"fn": dom_req["fn"], "tn": dom_req["tn"], "rssi": (-rmax, -rmin, "RSSI values of valid toolkit messages"),
+               "toa256": (-32768, 32767, "ToA256 values of the signed 16-bit field"),
+               "burst_len": (min(rlens), max(rlens), "burst lengths of the layout (%s)" % ", ".join(map(str, rlens)))}
+    n_members = 0
+    for rec, dom, el in (("l1sched_burst_req", dom_req, (0, 1, "hard bits")), ("trxcon_phyif_burst_req", dom_req, (0, 1, "hard bits")),
+                         ("trxcon_phyif_burst_ind", dom_ind, (-127, 127, "soft bits"))):
+        fds = _field_decls(tu, rec)
+        miss = [k for k in list(dom) + ["burst"] if k not in fds]
+        if miss:
+            raise AnalysisError("struct %s: anchor members %s not found" % (rec, "/".join(miss)))
+        for nm, (lo, hi, what) in list(dom.items()) + [("burst", el)]:
+            fd = fds[nm]
+            rg = _int_range(tu, fd, element=(nm == "burst"))
+            if rg is None:
+                raise AnalysisError("struct %s: member `%s` (%s) is not of a plain integer type the rule can bound" % (
+                    rec, nm, (fd.get("type") or {}).get("qualType")))
+            n_members += 1
+            L.ob(R, _decl_file(tu, L, fd), "struct %s" % rec,
+                 "%s `%s` of struct %s can hold all %s (%d..%d)" % ("objects addressed by member" if nm == "burst" else "member", nm, rec, what, lo, hi),
+                 "range includes %d..%d" % (lo, hi), rg[2], rg[0] <= lo and hi <= rg[1], tu.line(fd))
+    L.floor(R, "integer members of the scheduler / PHYIF burst structures bounded from their resolved types", n_members, 16)
+
+    # (b) scheduler request -> PHYIF request, evaluated
+    fsh = tu.func("l1sched_handle_burst_req")
+    L.fn(tu.rel, "l1sched_handle_burst_req")
+    brp = [p for p in tu.fparams(fsh) if "l1sched_burst_req" in (p.get("type") or {}).get("qualType", "")]
+    if len(brp) != 1:
+        raise AnalysisError("l1sched_handle_burst_req: burst request parameter not found")
+    P = brp[0].get("name")
+    pnames = list(_field_decls(tu, "trxcon_phyif_burst_req"))
+    ext = array_extent((_field_decls(tu, "l1sched_burst_req")["burst"].get("type") or {}).get("qualType"))
+    if ext is None or ext < max(tlens):
+        raise AnalysisError("struct l1sched_burst_req: extent of `burst` not determined / below the largest burst (%s)" % ext)
+    wel = _wrapper(_pointee(_qt(_field_decls(tu, "trxcon_phyif_burst_req")["burst"])) or "")
+
+    def snapshot(M, st, ref, names, what):
+        if not (isinstance(ref, tuple) and ref and ref[0] == "ref"):
+            raise AnalysisError("%s: the burst request handed on is not the address of an object the evaluation follows" % what)
+        fr, key = ref[2], ref[1]
+        return {f_: fr.get("%s.%s" % (key, f_)) for f_ in names}
+
+    def h_phy(M, st, a, n):
+        snap = snapshot(M, st, a[1] if len(a) > 1 else None, pnames, "l1sched_handle_burst_req")
+        bp, bl = snap.get("burst"), snap.get("burst_len")
+        hard = None
+        if _isptr(bp) and isinstance(bl, int) and 0 <= bl <= 4096:
+            hard = [M.load(st, M.padd(st, bp, i, 1), wel, 1) for i in range(bl)]
+        st.out.setdefault("handed", []).append((snap, hard))
+        return 0
+    M = CMach(tu, {"trxcon_phyif_handle_burst_req": h_phy})
+    M.watch = ("trxcon_phyif_burst_req", "l1sched_burst_req")
+    bad = {k: [] for k in ("fn", "tn", "pwr", "burst_len", "burst", "count")}
+    cnt = {"runs": 0, "handed": 0}
+
+    def one(tn, fn, pwr, bits):
+        st = CState()
+        frame = {}
+        for k, v in (("tn", tn), ("fn", fn), ("pwr", pwr), ("burst_len", len(bits))):
+            frame["@req.%s" % k] = v
+        mk = "%s@%x" % ("@req.burst", id(frame))
+        st.mem[mk], st.esz[mk] = list(bits) + [None] * (ext - len(bits)), 1
+        M.run(fsh, st, {P: ("ref", "@req", frame)})
+        cnt["runs"] += 1
+        given = "tn=%d fn=%d pwr=%d burst_len=%d" % (tn, fn, pwr, len(bits))
+        handed = st.out.get("handed") or []
+        if len(handed) > 1:
+            bad["count"].append((given, len(handed)))
+        for snap, hard in handed[:1]:
+            cnt["handed"] += 1
+            und = [k for k in ("tn", "fn", "pwr", "burst_len") if not isinstance(snap.get(k), int)]
+            if und or not _isptr(snap.get("burst")):
+                raise AnalysisError("l1sched_handle_burst_req: the evaluation does not determine the %s of the request handed to the PHYIF" % (
+                    ", ".join("`%s`" % k for k in und) or "`burst`"))
+            for k, v in (("tn", tn), ("fn", fn), ("pwr", pwr), ("burst_len", len(bits))):
+                if snap[k] != v:
+                    bad[k].append((given, "handed on: %s=%d" % (k, snap[k])))
+            oob = sorted({(x[0], "%s->burst" % P if x[1] == mk else x[1], x[2]) for x in st.faults if x[0] == "oob"})
+            if oob:
+                # the hard bits the request announces are not all inside the scheduler's burst array
+                bad["burst"].append((given, "access outside the scheduler's burst", oob[:3]))
+            elif snap["burst_len"] == len(bits):
+                if hard is None or any(x is None for x in hard):
+                    raise AnalysisError("l1sched_handle_burst_req: the evaluation does not determine the hard bits the PHYIF request points to")
+                if hard != list(bits):
+                    i = next(i for i in range(len(bits)) if hard[i] != bits[i])
+                    bad["burst"].append((given, "hard bit %d" % i, hard[i], bits[i]))
+    for j in range(256):
+        one(j & 7, (j * 10601 + 7) % H, j, [((i * i + i // 3 + j) >> 1) & 1 for i in range(tlens[0])])
+    for fn in (0, 1, 255, 256, 65535, 65536, 0x00010203, 0x00203040, H - 2, H - 1):
+        one(3, fn, 10, [i & 1 for i in range(tlens[0])])
+    for bl in tlens[1:]:
+        for j in range(8):
+            one(j & 7, (j * 170003 + 11) % H, (j * 37) & 0xff, [((i * 7 + j) % 5) & 1 for i in range(bl)])
+    for tn in range(8):
+        one(tn, (tn * 339456 + 5) % H, 0, [])
+    fn_ = "l1sched_handle_burst_req"
+    line = tu.line(fsh)
+    L.floor(R, "scheduler burst requests evaluated through l1sched_handle_burst_req", cnt["runs"], 250)
+    L.floor(R, "burst requests handed to the PHYIF (trxcon_phyif_handle_burst_req)", cnt["handed"], 250)
+    L.ob(R, tu.rel, fn_, "a scheduler burst request is handed to the PHYIF at most once", [], bad["count"][:4], not bad["count"], line)
+    for k, what in (("fn", "frame number (sweep over the hyperframe, boundaries 0 and 2715647)"), ("tn", "timeslot (0..7)"),
+                    ("pwr", "attenuation (all 256 values)"), ("burst_len", "burst length (idle PDU 0, %s)" % ", ".join(map(str, tlens)))):
+        L.ob(R, tu.rel, fn_, "the PHYIF burst request carries the %s the scheduler gave, through the conversions at the stores into struct trxcon_phyif_burst_req" % what,
+             [], bad[k][:4], not bad[k], line)
+    L.ob(R, tu.rel, fn_, "the PHYIF burst request points to the hard bits the scheduler gave (every position, both burst lengths)", [], bad["burst"][:4], not bad["burst"], line)
+
+    # (b') PHYIF -> trx_if.c: the request handed on is the one received
+    try:
+        tm = TU(L.repo, "trxcon", "src/trxcon_main.c", L=L)
+    except AnalysisError:
+        # the declaration-only stub of libosmocore's logging.h lacks two enumerators main() passes to the logging set-up
+        tm = TU(L.repo, "trxcon", "src/trxcon_main.c", defines=("LOG_FILENAME_BASENAME=0", "LOG_FILENAME_POS_LINE_END=0"), L=L)
+    ff = tm.func("trxcon_phyif_handle_burst_req")
+    L.fn(tm.rel, "trxcon_phyif_handle_burst_req")
+    brp = [p for p in tm.fparams(ff) if "trxcon_phyif_burst_req" in (p.get("type") or {}).get("qualType", "")]
+    if len(brp) != 1:
+        raise AnalysisError("trxcon_phyif_handle_burst_req: burst request parameter not found")
+    P2 = brp[0].get("name")
+    others = [p.get("name") for p in tm.fparams(ff) if p.get("name") != P2]
+
+    def h_trx(M, st, a, n):
+        st.out.setdefault("handed", []).append(snapshot(M, st, a[1] if len(a) > 1 else None, pnames, "trxcon_phyif_handle_burst_req"))
+        return 0
+    M2 = CMach(tm, {"trx_if_handle_phyif_burst_req": h_trx})
+    M2.watch = ("trxcon_phyif_burst_req",)
+    bad2, nh = [], 0
+    for j, bl in enumerate([0] + list(tlens)):
+        st = CState()
+        given = {"tn": 7 - j, "fn": H - 1 - j, "pwr": 255 - j, "burst": ("ptr", "@bits", 0), "burst_len": bl}
+        frame = {"@req.%s" % k: v for k, v in given.items()}
+        st.mem["@bits"], st.esz["@bits"] = [i & 1 for i in range(bl)], 1
+        args = {o: ("ptr", "@" + o, 0) for o in others}
+        args[P2] = ("ref", "@req", frame)
+        M2.run(ff, st, args)
+        handed = st.out.get("handed") or []
+        if len(handed) > 1:
+            bad2.append(("burst_len=%d" % bl, "handed on %d times" % len(handed)))
+        for snap in handed[:1]:
+            nh += 1
+            diff = {k: snap.get(k) for k in given if snap.get(k) != given[k]}
+            if any(not isinstance(v, int) and not _isptr(v) for v in diff.values()):
+                raise AnalysisError("trxcon_phyif_handle_burst_req: the evaluation does not determine %s of the request handed to trx_if.c" % sorted(diff))
+            if diff:
+                bad2.append(("given %s" % {k: given[k] for k in diff}, "handed on %s" % diff))
+    L.floor(R, "PHYIF burst requests handed to trx_if_handle_phyif_burst_req", nh, 3)
+    L.ob(R, tm.rel, "trxcon_phyif_handle_burst_req", "the burst request handed to trx_if_handle_phyif_burst_req holds the values of the PHYIF request received (idle PDU and both burst lengths)",
+         [], bad2[:4], not bad2, tm.line(ff))
+
+
 def _group(L, rule, file, what, semantic, structural):
     """decision of one rule group: the concrete evaluation on message / datagram families decides (a mismatch is a
     violation with a counterexample); the structural reading is recorded as a for-all proof (closed / open).  If the code
@@ -2091,3 +2346,4 @@ def run(L, tier):
     spec = load_spec()
     us2s = L.stage(r1_python, L, repo, spec, tier)
     L.stage(r2_r3_trxcon, L, repo, spec, us2s, tier)
+    L.stage(r5_carriage, L, repo, spec, tier)
